@@ -9,6 +9,7 @@ import CvDriver.C19
 import CvDriver.C09
 import CvDriver.C10
 import CvDriver.C16
+import CvDriver.C14
 open Drv
 
 structure DState where
@@ -18,6 +19,7 @@ structure DState where
   script : ScriptSt := {}
   outp : OutSt := {}
   integ : IntSt := {}
+  shared : SharedSt := {}
 
 def stepLine (s : DState) (ln : Nat) (line : String) : DState × List String :=
   let t := toks line
@@ -44,6 +46,9 @@ def stepLine (s : DState) (ln : Nat) (line : String) : DState × List String :=
     | none =>
     match c16 s.integ ln t with
     | some (m, o) => ({ s with integ := m }, o)
+    | none =>
+    match c14 s.shared ln t with
+    | some (m, o) => ({ s with shared := m }, o)
     | none =>
     match c20 s.script ln t with
     | some (m, o) => ({ s with script := m }, o)
